@@ -446,14 +446,10 @@ impl<'a> Gen<'a> {
                 }
             },
             16..=18 => {
-                // map.sort(): keys must be mutually comparable for ValueKey::partial_cmp to be a
-                // total preorder (numbers, or strings; null sorts first)
-                let ks: Vec<&V> = es.iter().map(|(k, _)| k).filter(|k| !matches!(k, V::Null)).collect();
-                if ks.iter().all(|k| is_num(k)) || ks.iter().all(|k| is_str(k)) {
-                    Stmt::Do(op("sort", vec![t]))
-                } else {
-                    return None;
-                }
+                // map.sort(): on keys of one kind (numbers / strings, null first) ValueKey::partial_cmp
+                // is a total preorder; maps with keys of mixed kinds are sorted too — the model follows
+                // the merge sort, the (D) oracle attributes unordered results to F-C14-5
+                Stmt::Do(op("sort", vec![t]))
             }
             19..=22 => {
                 // index assignment: a new key, the key already at that index, or (since F-C14-2 is
